@@ -284,7 +284,7 @@ Section CovCons.
       rewrite (alookup_filter_keys (fun k => false || negb (mem_ustr k dfl))). rewrite Hel. cbn [orb negb].
       destruct (alookup (u "tlp") dinner) as [[[| | | |color| |]| | | |]|]; try discriminate H. cbn [encode].
       unfold tlp_table. rewrite assoc_alookup. unfold tlp_ids in H.
-      match type of H with match ?a with _ => _ end = _ => destruct a as [id|] end; [|reflexivity].
+      match type of H with match ?a with _ => _ end = _ => destruct a as [id|] end; [|first [discriminate H | reflexivity]].
       rewrite (lookup_members c setting (u "id")) by (apply Hn; simpl; auto).
       rewrite (lookup_members c setting (u "created")) by (apply Hn; simpl; auto).
       destruct (alookup (u "id") setting) as [[[| | | |i| |]| | | |]|]; try discriminate H.
